@@ -6,7 +6,7 @@ from tools import oracle as O
 LEAN_MODULES = ["SCP.C04", "SCP.Setters"]
 THEOREMS = ["SCP.C04.setText_exec", "SCP.C04.history_refines", "SCP.C04.history_slot_counts",
             "SCP.C04.execute_eq", "SCP.C04.sessions_isolated", "SCP.C04.old_cursor_violates",
-            "SCP.C04.runLines_length"] + ["SCP.Setters." + t for t in "dec_thou_comm run_dec run_thou run_num run_pct run_money run_frame run_same_last".split()]
+            "SCP.C04.runLines_length"] + ["SCP.Setters." + t for t in "dec_thou_comm run_dec run_thou run_num run_pct run_money run_frame run_same_last run_eq_of_same_last".split()]
 RULE = ("histories of set_text/execute_session calls on 1-3 sessions (en / tr) of one long-lived calculator, interleaved with "
         "execute() calls in both languages; texts of 1-6 generated lines (assignments, uses, failing lines, all value kinds), texts aimed at "
         "caches (a word used as plain text, then bound, then the identical line again; the same text set and evaluated twice; operator words "
